@@ -183,6 +183,67 @@ def check_obstacle(r, ctx):
         ctx.nontrivial()
 
 
+# ------------------------------------------------------------------------------------------------ static obstacle
+def s_static(tier):
+    motion = st.tuples(translation(100), angle()).map(list)
+    op = st.one_of(st.tuples(st.just("query"), st.integers(0, 9)), st.tuples(st.just("query"), st.integers(0, 9)),
+                   st.tuples(st.sampled_from(["tr-obstacle", "tr-scenario"]), motion),
+                   st.tuples(st.just("set-initial-state"), gg.exact_state("InitialState", 0)),
+                   st.tuples(st.sampled_from(["deepcopy", "pickle"])))
+    return st.fixed_dictionaries({"shape": st.one_of(gg.any_shape(centered=False), gg.any_shape(centered=True)),
+                                  "init": gg.exact_state("InitialState", 0),
+                                  "ops": st.lists(op, min_size=2, max_size=10)})
+
+
+def _off_centre(sh):
+    if sh["k"] == "group":
+        return any(_off_centre(m) for m in sh["m"])
+    if sh["k"] == "poly":
+        return max(abs(x) for x in geom.polygon_centroid(sh["v"])) > 1e-6
+    return sh.get("c") is not None and any(abs(x) > 1e-6 for x in sh["c"])
+
+
+def check_static(r, ctx):
+    from commonroad.scenario.obstacle import StaticObstacle
+    with warnings.catch_warnings():
+        warnings.simplefilter("ignore")
+        ob = gs.build_obstacle({"role": "static", "id": 5, "type": "PARKED_VEHICLE", "shape": r["shape"],
+                                "init": r["init"]})
+        sc = Scenario(0.1)
+        sc.add_objects(ob)
+        queried = mutated_after = False
+        for op in r["ops"]:
+            kind = op[0]
+            if kind == "query":
+                ob.occupancy_at_time(op[1])
+                queried = True
+            else:
+                if queried:
+                    mutated_after = True
+                if kind == "tr-obstacle":
+                    ob.translate_rotate(np.array(op[1][0], dtype=float), op[1][1])
+                elif kind == "tr-scenario":
+                    sc.translate_rotate(np.array(op[1][0], dtype=float), op[1][1])
+                elif kind == "set-initial-state":
+                    ob.initial_state = gg.build_state(op[1])
+                else:
+                    sc = copy.deepcopy(sc) if kind == "deepcopy" else pickle.loads(pickle.dumps(sc))
+                    ob = sc.obstacle_by_id(5)
+            ctx.label("op-" + kind)
+            fresh = StaticObstacle(ob.obstacle_id, ob.obstacle_type, copy.deepcopy(ob.obstacle_shape),
+                                   copy.deepcopy(ob.initial_state))
+            for t in (0, 3):
+                same_occupancy(ob.occupancy_at_time(t), fresh.occupancy_at_time(t), "static-after-" + kind, t)
+            occs = sc.occupancies_at_time_step(2)
+            if len(occs) != 1:
+                raise Violation("static-scenario-occupancies", "%d occupancies for one static obstacle" % len(occs))
+            same_occupancy(occs[0], fresh.occupancy_at_time(2), "static-scenario-after-" + kind, 2)
+    if _off_centre(r["shape"]):
+        ctx.label("off-centre-shape")
+    if queried and mutated_after:
+        ctx.nontrivial()
+
+
 # ------------------------------------------------------------------------------------------------ lanelet
 def s_lanelet(tier):
     motion = st.tuples(translation(100), angle()).map(list)
@@ -243,6 +304,7 @@ def s_network(draw, tier=None):
         st.tuples(st.just("add"), st.integers(0, 2)),
         st.tuples(st.just("remove"), st.integers(0, 7)),
         st.tuples(st.sampled_from(["deepcopy", "pickle"])),
+        st.tuples(st.just("add-network"), st.integers(0, 3), st.integers(0, 7)),
     )
     return {"net": net, "extra": extra["lanelets"], "level": draw(st.sampled_from(["network", "scenario"])),
             "ops": [list(o) for o in draw(st.lists(op, min_size=2, max_size=10))]}
@@ -296,6 +358,24 @@ def check_network(r, ctx):
                         sc.add_objects(la)
                     else:
                         ln.add_lanelet(la)
+                elif kind == "add-network":
+                    # merge another network; op[1] new lanelets, one lanelet with an id already in use is placed
+                    # somewhere among them (it is rejected with a warning, the others are added)
+                    if sc is not None:      # network-level API; behind a scenario's back it would bypass the id pool
+                        ctx.label("op-skipped")
+                        continue
+                    new = [gs.build_lanelet(l) for l in extra[added:added + op[1]]]
+                    added += len(new)
+                    ids = sorted(x.lanelet_id for x in ln.lanelets)
+                    if ids:
+                        dup = gs.build_lanelet(dict(extra[0], id=ids[op[2] % len(ids)]))
+                        new.insert(op[2] % (len(new) + 1), dup)
+                        ctx.label("add-network-with-duplicate-id")
+                    if not new:
+                        ctx.label("op-skipped")
+                        continue
+                    other = LaneletNetwork.create_from_lanelet_list(new, cleanup_ids=False)
+                    ln.add_lanelets_from_network(other)
                 elif kind == "remove":
                     ids = sorted(x.lanelet_id for x in ln.lanelets)
                     if len(ids) <= 1:
@@ -332,20 +412,24 @@ def check_network(r, ctx):
             fresh = LaneletNetwork.create_from_lanelet_list(
                 [Lanelet(copy.deepcopy(la.left_vertices), copy.deepcopy(la.center_vertices),
                          copy.deepcopy(la.right_vertices), la.lanelet_id) for la in ln.lanelets])
-            got = set(ln.find_lanelet_by_position([np.array(p)])[0])
-            exp = set(fresh.find_lanelet_by_position([np.array(p)])[0])
             scale = c06.net_scale(cur)
-            must, may = set(), set()
-            for lid, ring in rings.items():
-                inside, d = geom.point_in_polygon(p, ring)
-                if d < 1e-9 * scale:
-                    may.add(lid)
-                elif inside:
-                    must.add(lid)
-            if not (must <= got <= must | may):
-                raise Violation("network-position-lookup-stale-after-" + kind,
-                                "point %r: got %r, rebuilt network %r, brute force %r (band %r)" % (
-                                    p, sorted(got), sorted(exp), sorted(must), sorted(may)))
+            # the query point of the history plus one point inside every lanelet the network has now
+            points = [p] + [c06.point_from_spec(cur, {"kind": "in", "lanelet": i, "u": 0.5, "v": 0.5})
+                            for i in range(len(cur["lanelets"]))]
+            for pt in points:
+                got = set(ln.find_lanelet_by_position([np.array(pt)])[0])
+                exp = set(fresh.find_lanelet_by_position([np.array(pt)])[0])
+                must, may = set(), set()
+                for lid, ring in rings.items():
+                    inside, d = geom.point_in_polygon(pt, ring)
+                    if d < 1e-9 * scale:
+                        may.add(lid)
+                    elif inside:
+                        must.add(lid)
+                if not (must <= got <= must | may):
+                    raise Violation("network-position-lookup-stale-after-" + kind,
+                                    "point %r: got %r, rebuilt network %r, brute force %r (band %r)" % (
+                                        pt, sorted(got), sorted(exp), sorted(must), sorted(may)))
             q = c06.place_query(qshape, p)
             if q["k"] != "circle":      # circle export is the recorded C06 finding
                 g = gg.shape_geo(q)
@@ -413,6 +497,10 @@ FACETS = [
           rule="2-14 steps of query / translate_rotate (obstacle, prediction, containing scenario) / trajectory and "
                "shape setters / update_prediction / update_initial_state with max_history_length 1-4; occupancy and "
                "state at t=0..10 vs rebuilt obstacle; history list model; non-trivial = a mutation after a query"),
+    Facet("static-obstacle", check_static, strategy=s_static, quick=2000, thorough=40000,
+          rule="static obstacle (shapes with and without an own centre offset) in a scenario: 2-10 steps of query / "
+               "translate_rotate (obstacle, scenario) / initial_state setter / deepcopy / pickle; occupancy per "
+               "obstacle and through the scenario vs a freshly built obstacle"),
     Facet("lanelet", check_lanelet, strategy=s_lanelet, quick=3000, thorough=60000,
           rule="query (distance, interpolate, polygon, inner distance) / translate_rotate; polygon, distances, "
                "interpolation, containment vs rebuilt lanelet"),
